@@ -1,8 +1,10 @@
 """Fail-closed Python-`ast` translator: bct/algorithms/reference.py -> coq/theories/Gen/RewireTable.v.
 
 For each of the nine edge-swap routines it extracts the "swap table" (vocabulary of Model/RewireSpec.v):
-edge-list source, four-distinct test, flip block, rewiring condition, ordered cell writes, index patches,
-presence of the lattice / connectivity / mask conditions, permutation before and inverse permutation after.
+edge-list source, the selection loop (two draws bounded by the edge count, the `while e1 == e2` redraw, the four endpoint
+reads `a = i[e1]` ..., the four-distinct test — and nothing else in that loop), flip block, rewiring condition, ordered cell
+writes, index patches, absence of any other write to the matrix, presence of the lattice / connectivity / mask conditions,
+the max_attempts formula, the loop skeleton, permutation before and inverse permutation after.
 Anything it does not recognise is emitted as a value that cannot match the expected table (never dropped), so the
 generated obligation `src_table_ok` fails to compile and the check reports it.
 """
@@ -82,7 +84,8 @@ def disj_terms(test):
 def extract(fn):
     mat = 'A' if fn.name == 'randomize_graph_partial_und' else 'R'
     spec = {'el': find_edge_list(fn), 'four': None, 'flip': [], 'cond': None, 'writes': None, 'patches': None,
-            'lattice': False, 'conn': False, 'mask': [], 'latt': False}
+            'lattice': False, 'conn': False, 'mask': [], 'latt': False, 'reads': [], 'redraw': False, 'halved': False,
+            'loops': False}
     # four-distinct test: `if a != c and a != d and b != c and b != d: break`
     for st in ast.walk(fn):
         if isinstance(st, ast.If) and len(st.body) == 1 and isinstance(st.body[0], ast.Break):
@@ -92,6 +95,42 @@ def extract(fn):
                 if spec['four'] is not None:
                     raise Unknown('two four-distinct tests')
                 spec['four'] = [(SYM[name(t.left)], SYM[name(t.comparators[0])]) for t in terms]
+    # the selection loop: the `while True:` whose body holds the four-distinct test.  Every statement of its body must be
+    # one of: the two draws bounded by the edge count, the redraw loop, the four endpoint reads, the test itself.
+    sel = [st for st in ast.walk(fn) if isinstance(st, ast.While) and isinstance(st.test, ast.Constant) and st.test.value is True
+           and any(isinstance(x, ast.If) and len(x.body) == 1 and isinstance(x.body[0], ast.Break) and
+                   all(isinstance(t, ast.Compare) and isinstance(t.ops[0], ast.NotEq) for t in conj_terms(x.test)) for x in st.body)]
+    if len(sel) != 1:
+        raise Unknown('%d selection loops' % len(sel))
+    kvars = [name(st.targets[0]) for st in ast.walk(fn) if isinstance(st, ast.Assign) and len(st.targets) == 1
+             and name(st.targets[0]) and ast.unparse(st.value) == 'len(i)']
+    if len(kvars) != 1:
+        raise Unknown('edge count variable: %r' % kvars)
+    kv = kvars[0]
+    reads, drawn, redraw = [], [], False
+    for st in sel[0].body:
+        src1 = ast.unparse(st)
+        if src1 in ('e1 = rng.randint(%s)' % kv, 'e2 = rng.randint(%s)' % kv):
+            drawn.append(src1[:2])
+        elif src1 == 'e1, e2 = rng.randint(%s, size=(2,))' % kv:
+            drawn += ['e1', 'e2']
+        elif isinstance(st, ast.While) and ast.unparse(st.test) == 'e1 == e2' and [ast.unparse(x) for x in st.body] == ['e2 = rng.randint(%s)' % kv]:
+            if drawn != ['e1', 'e2']:
+                raise Unknown('redraw loop before both draws')
+            redraw = True
+        elif isinstance(st, ast.Assign) and len(st.targets) == 1 and name(st.targets[0]) in SYM and isinstance(st.value, ast.Subscript) \
+                and name(st.value.value) in ('i', 'j') and name(st.value.slice) in ('e1', 'e2'):
+            if not redraw:
+                raise Unknown('endpoint read before the redraw loop')
+            reads.append((SYM[name(st.targets[0])], name(st.value.value) == 'j', name(st.value.slice) == 'e1'))
+        elif isinstance(st, ast.If) and len(st.body) == 1 and isinstance(st.body[0], ast.Break):
+            if len(reads) != 4:
+                raise Unknown('four-distinct test after %d reads' % len(reads))
+        else:
+            raise Unknown('statement in the selection loop: ' + src1[:80])
+    if drawn != ['e1', 'e2']:
+        raise Unknown('draws of the selection loop: %r' % drawn)
+    spec['reads'], spec['redraw'] = reads, redraw
     # flip block: `if rng.random_sample() > .5:` with i[e2] = d; j[e2] = c; c = i[e2]; d = j[e2]
     for st in ast.walk(fn):
         if isinstance(st, ast.If) and isinstance(st.test, ast.Compare) and 'random_sample' in ast.unparse(st.test):
@@ -180,6 +219,29 @@ def extract(fn):
         else:
             raise Unknown('statement in the accepted block: ' + ast.unparse(s)[:80])
     spec['writes'], spec['patches'] = writes, patches
+    # no other statement of the function writes a cell of the matrix (e.g. after the loop)
+    allw = [st for st in ast.walk(fn) if isinstance(st, (ast.Assign, ast.AugAssign)) and
+            any(isinstance(t, ast.Subscript) and name(t.value) == mat for t in (st.targets if isinstance(st, ast.Assign) else [st.target]))]
+    if len(allw) != len(writes):
+        raise Unknown('%d writes to %s, %d of them in the accepted block' % (len(allw), mat, len(writes)))
+    # loop skeleton and attempt bound
+    src0 = ast.unparse(fn)
+    tests = [ast.unparse(st.test) for st in ast.walk(fn) if isinstance(st, ast.While)]
+    if mat == 'A':
+        spec['loops'] = 'nswap < maxswap' in tests and 'nswap = 0' in src0
+        if 'max_attempts' in src0:
+            raise Unknown('attempt bound in randomize_graph_partial_und')
+    else:
+        ma = [ast.unparse(st.value) for st in ast.walk(fn) if isinstance(st, ast.Assign) and name(st.targets[0]) == 'max_attempts']
+        if ma == ['np.round(n * %s / (n * (n - 1)))' % kv]:
+            spec['halved'] = False
+        elif ma == ['np.round(n * %s / (n * (n - 1) / 2))' % kv]:
+            spec['halved'] = True
+        else:
+            raise Unknown('max_attempts: %r' % ma)
+        fors = [ast.unparse(st.iter) for st in ast.walk(fn) if isinstance(st, ast.For) and name(st.target) == 'it']
+        spec['loops'] = ('itr *= %s' % kv) in src0 and fors in (['range(int(itr))'], ['range(itr)']) and 'att <= max_attempts' in tests \
+            and 'att = 0' in src0 and 'att += 1' in src0 and 'n = len(R)' in src0
     # latticisers: permute before, inverse-permute after
     src = ast.unparse(fn)
     pre = 'R = R[np.ix_(ind_rp, ind_rp)]' in src and 'ind_rp = rng.permutation(n)' in src
@@ -202,12 +264,14 @@ def coq_spec(s):
     b = lambda x: 'true' if x else 'false'
     writes = coq_list(['(%s, %s)' % (coq_cell(d), 'None' if sc is None else 'Some ' + coq_cell(sc)) for d, sc in s['writes']])
     pat = lambda ps: coq_list(['(%s, %s, %s)' % (b(p[0]), b(p[1]), p[2]) for p in ps])
-    return ('mkspec %s %s %s %s\n    %s\n    %s %s %s %s %s' % (
+    reads = coq_list(['(%s, (%s, %s))' % (r[0], b(r[1]), b(r[2])) for r in s['reads']])
+    return ('mkspec %s %s %s %s\n    %s\n    %s %s %s %s %s\n    %s %s %s %s' % (
         s['el'], coq_list([coq_cell(c) for c in (s['four'] or [])]), pat(s['flip']), coq_list([coq_cell(c) for c in s['cond']]),
-        writes, pat(s['patches']), b(s['lattice']), b(s['conn']), coq_list([coq_cell(c) for c in s['mask']]), b(s['latt'])))
+        writes, pat(s['patches']), b(s['lattice']), b(s['conn']), coq_list([coq_cell(c) for c in s['mask']]), b(s['latt']),
+        reads, b(s['redraw']), b(s['halved']), b(s['loops'])))
 
 
-UNRECOGNISED = 'mkspec ELall [] [] [] [] [] false false [] false'
+UNRECOGNISED = 'mkspec ELall [] [] [] [] [] false false [] false [] false false false'
 
 
 def generate(repo, out_path):
@@ -230,7 +294,7 @@ def generate(repo, out_path):
     txt.append('Definition source_table : list src_spec :=\n  [ ' + ';\n    '.join('(' + e + ')' for e in entries) + ' ].')
     txt.append('')
     txt.append('(* the swap table read off the current source is the one the engine of Model/Rewire.v implements')
-    txt.append('   (Proofs/RewireSpec.v: attempt_is_table) *)')
+    txt.append('   (Proofs/RewireSpec.v: attempt_tab_engine, attempt_tab_partial: the table-driven attempt IS the engine attempt) *)')
     txt.append('Example src_table_ok : list_eqb spec_eqb source_table expected_table = true.')
     txt.append('Proof. vm_compute. reflexivity. Qed.')
     new = '\n'.join(txt) + '\n'
